@@ -261,6 +261,25 @@ func scenarios() []*sched.Scenario {
 		w.d.Start()
 		w.shutdownAndWait()
 	})
+	// a worker that is not the last of the shutdown sequence returns on its own; nothing is registered afterwards; the
+	// remaining workers must still be stopped in descending order
+	add("highest-order-exits-early-then-shutdown", false, func(w *world) {
+		_ = w.add(wspec{name: "high", order: 10, early: true})
+		_ = w.add(wspec{name: "mid", order: 5, lateYields: 2})
+		_ = w.add(wspec{name: "low", order: 1})
+		w.d.Start()
+		vrt.Settle() // the early worker has returned and has been cleaned up
+		w.shutdownAndWait()
+	})
+	add("middle-order-exits-early-then-shutdown/4-workers", false, func(w *world) {
+		_ = w.add(wspec{name: "a", order: 10, lateYields: 1})
+		_ = w.add(wspec{name: "b", order: 7, early: true})
+		_ = w.add(wspec{name: "c", order: 3, lateYields: 2})
+		_ = w.add(wspec{name: "d", order: 1})
+		w.d.Start()
+		vrt.Settle()
+		w.shutdownAndWait()
+	})
 	add("finish-and-reregister-vs-shutdown", true, func(w *world) {
 		_ = w.add(wspec{name: "a", order: 1, early: true})
 		_ = w.add(wspec{name: "b", order: 2})
